@@ -102,7 +102,7 @@ class Run(object):
         path = os.path.join(REPLAY_DIR, "%s-%s.json" % (self.pid, h))
         with open(path, "w") as f:
             f.write(blob)
-        if len(self.violations) < 20:
+        if len(self.violations) < 5:
             print("VIOLATION property=%s replay=%s" % (self.pid, path))
             print("  detail: %s" % json.dumps(sig, default=repr)[:600])
             sys.stdout.flush()
@@ -153,10 +153,11 @@ class Run(object):
         if self.violations:
             agg = {}
             for sig, _ in self.violations:
-                k = json.dumps(sig, sort_keys=True, default=repr)
-                agg[k] = agg.get(k, 0) + 1
-            for k, n in sorted(agg.items(), key=lambda kv: -kv[1])[:40]:
-                print("  %5d x %s" % (n, k[:300]))
+                s2 = dict((a, b) for a, b in sig.items() if a not in ("path", "kind"))
+                k = json.dumps(s2, sort_keys=True, default=repr)
+                agg.setdefault(k, []).append(sig.get("path", ""))
+            for k, ps in sorted(agg.items(), key=lambda kv: -len(kv[1]))[:30]:
+                print("  %5d x %s paths=%s" % (len(ps), k[:260], sorted(set(ps))[:4]))
             print("RESULT %s VIOLATIONS=%d wall=%.1fs" % (self.pid, len(self.violations), wall))
             return 1
         print("RESULT %s HOLD states=%d traces=%d evaluations=%d nontrivial=%d wall=%.1fs" % (
